@@ -142,6 +142,7 @@ func (t *TemplateDef) Spec() corev1.PodTemplateSpec {
 }
 
 type NodeDef struct {
+	Bare        bool              `json:"bare,omitempty"`
 	Name        string            `json:"name"`
 	Labels      map[string]string `json:"labels,omitempty"`
 	Taints      []string          `json:"taints,omitempty"` // "key:Effect"
@@ -163,6 +164,9 @@ func (n *NodeDef) Object() *corev1.Node {
 		node.Labels[k] = v
 	}
 	node.Labels["kubernetes.io/hostname"] = n.Name
+	if n.Bare {
+		node.Labels = nil // a Node object registered without any label
+	}
 	for _, t := range n.Taints {
 		node.Spec.Taints = append(node.Spec.Taints, parseTaint(t))
 	}
